@@ -1,9 +1,124 @@
-(* C02 - placeholder; theorems are added as proofs land *)
+(* C02 - Integrator is the textbook leapfrog for the implied mass matrix.
+   Statements only (Qc = canonical rationals instance of model/Leapfrog.v, the instance that is
+   evaluated against the real integrator); proofs in proofs/Leapfrog_facts.v, which also holds
+   the same theorems over an arbitrary commutative ring. *)
 From Coq Require Import ZArith QArith Qcanon List.
-From NutsV Require Import model.Leapfrog model.LeapfrogQc.
+From NutsV Require Import model.Leapfrog model.LeapfrogQc proofs.Leapfrog_facts.
 Import ListNotations.
-Example C02_model_runs :
+Local Open Scope Qc_scope.
+
+(* time reversibility: a forward step followed by a backward step returns the start exactly,
+   for every (length-preserving) gradient function, step size of either sign, and state *)
+Theorem C02_reversible_euclidean :
+  forall (tg : cvec -> cvec) (eps half c s c' s' : Qc) (q v : list Qc),
+    (forall x, length (tg x) = length x) -> length q = length v ->
+    c_step tg Euclidean (- eps) (- half) c' s' (c_step tg Euclidean eps half c s (q, v)) = (q, v).
+Proof. exact c_step_reversible_euclidean. Qed.
+Print Assumptions C02_reversible_euclidean.
+
+Theorem C02_reversible_exact_normal :
+  forall (tg : cvec -> cvec) (eps half c s : Qc) (q v : list Qc),
+    (forall x, length (tg x) = length x) -> c * c + s * s = Q2Qc 1 -> length q = length v ->
+    c_step tg ExactNormal (- eps) (- half) c (- s) (c_step tg ExactNormal eps half c s (q, v)) = (q, v).
+Proof. exact c_step_reversible_exact_normal. Qed.
+Print Assumptions C02_reversible_exact_normal.
+
+(* the whitened step IS the velocity-Verlet step of H(x,p) = -logp(x) + 1/2 p^T (F F^T) p, written
+   in (x, u = F F^T p) coordinates, for the diagonal and the low-rank transformation
+   x = F y + mu (F = lr_lin, F^T = lr_grad) and the model's polynomial densities *)
+Theorem C02_leapfrog_textbook :
+  forall (n : nat) (P : potential) (l : clowrank) (eps half c s : Qc) (q v : list Qc),
+    c_lowrank_dims n l -> length (p_prec P) = n -> length (p_mean P) = n ->
+    length q = n -> length v = n ->
+    let g := pot_grad P in
+    let Minv := fun w => c_lr_lin l (c_lr_grad l w) in
+    let '(q1, v2) := c_step (tg_of P l) Euclidean eps half c s (q, v) in
+    let x := c_lr_fwd l q in
+    let u := c_lr_lin l v in
+    let u1 := c_axpy half (Minv (g x)) u in
+    let x1 := c_axpy eps u1 x in
+    c_lr_fwd l q1 = x1 /\ c_lr_lin l v2 = c_axpy half (Minv (g x1)) u1.
+Proof. exact c_leapfrog_textbook_tg_of. Qed.
+Print Assumptions C02_leapfrog_textbook.
+
+(* the transformation is a bijection with the stored inverse (sigma_i * inv_sigma_i = 1,
+   orthonormal columns, r_k * rinv_k = 1) *)
+Theorem C02_diag_roundtrip :
+  forall (n : nat) (d : cdiag), c_diag_ok n d ->
+    (forall y, length y = n -> c_diag_inv d (c_diag_fwd d y) = y) /\
+    (forall x, length x = n -> c_diag_fwd d (c_diag_inv d x) = x).
+Proof. exact c_diag_roundtrip. Qed.
+Print Assumptions C02_diag_roundtrip.
+
+Theorem C02_lowrank_roundtrip :
+  forall (n : nat) (l : clowrank), c_lowrank_ok n l ->
+    (forall y, length y = n -> c_lr_inv l (c_lr_fwd l y) = y) /\
+    (forall x, length x = n -> c_lr_fwd l (c_lr_inv l x) = x).
+Proof. exact c_lr_roundtrip. Qed.
+Print Assumptions C02_lowrank_roundtrip.
+
+(* the position map is affine with Jacobian lr_lin, and the gradient map is its transpose *)
+Theorem C02_position_map_affine :
+  forall (n : nat) (l : clowrank) (y delta : cvec),
+    c_all_len n (l_cols Qc l) -> length y = n -> length delta = n ->
+    c_lr_fwd l (c_vadd y delta) = c_vadd (c_lr_fwd l y) (c_lr_lin l delta).
+Proof. exact c_lr_fwd_affine. Qed.
+Print Assumptions C02_position_map_affine.
+
+Theorem C02_gradient_pullback :
+  forall (n : nat) (l : clowrank) (g delta : cvec),
+    c_all_len n (l_cols Qc l) -> length (d_sigma Qc (l_diag Qc l)) = n ->
+    length g = n -> length delta = n ->
+    c_dot (c_lr_grad l g) delta = c_dot g (c_lr_lin l delta).
+Proof. exact c_grad_pullback. Qed.
+Print Assumptions C02_gradient_pullback.
+
+(* ExactNormal conserves the energy exactly on a standard-normal target, for every step size *)
+Theorem C02_exact_normal_conserves :
+  forall (tg : cvec -> cvec) (eps half c s : Qc) (q v : list Qc),
+    (forall x, tg x = map Qcopp x) -> c * c + s * s = Q2Qc 1 -> length q = length v ->
+    let '(q1, v2) := c_step tg ExactNormal eps half c s (q, v) in
+    c_dot q1 q1 + c_dot v2 v2 = c_dot q q + c_dot v v.
+Proof. exact c_exact_normal_conserves. Qed.
+Print Assumptions C02_exact_normal_conserves.
+
+(* volume preservation, structural form: the step is a composition of three shears, each with an
+   explicit inverse; for an affine force in one dimension the Jacobian determinant is 1 *)
+Theorem C02_three_shears :
+  forall (tg : cvec -> cvec) (eps half c s : Qc) (qv : vec Qc * vec Qc),
+    c_step tg Euclidean eps half c s qv = c_kick tg half (c_drift eps (c_kick tg half qv)).
+Proof. exact c_step_is_three_shears. Qed.
+Print Assumptions C02_three_shears.
+
+Theorem C02_shears_invertible :
+  (forall (tg : cvec -> cvec) (h : Qc) (q v : list Qc),
+     (forall x, length (tg x) = length x) -> length q = length v ->
+     c_kick tg (- h) (c_kick tg h (q, v)) = (q, v) /\ c_kick tg h (c_kick tg (- h) (q, v)) = (q, v)) /\
+  (forall (e : Qc) (q v : cvec), length q = length v ->
+     c_drift (- e) (c_drift e (q, v)) = (q, v) /\ c_drift e (c_drift (- e) (q, v)) = (q, v)).
+Proof. split; [exact c_kick_inverse | exact c_drift_inverse]. Qed.
+Print Assumptions C02_shears_invertible.
+
+(* energy error is O(eps^2): for a Gaussian coordinate with precision w2 the modified energy
+   v^2 + w2 q^2 (1 - eps^2 w2 / 4) is conserved exactly, so the true energy changes by
+   eps^2/4 * w2^2 * (q1^2 - q^2) *)
+Theorem C02_energy_error_quadratic :
+  forall (tg : cvec -> cvec) (w2 eps c s q v : Qc),
+    (forall q0, tg [q0] = [- (w2 * q0)]) ->
+    let quarter := Q2Qc (1 # 4) in
+    let Emod := fun q0 v0 => v0 * v0 + w2 * q0 * q0 * (Q2Qc 1 - eps * eps * w2 * quarter) in
+    let E := fun q0 v0 => v0 * v0 + w2 * q0 * q0 in
+    exists q1 v2,
+      c_step tg Euclidean eps (eps * chalf) c s ([q], [v]) = ([q1], [v2]) /\
+      Emod q1 v2 = Emod q v /\
+      E q1 v2 - E q v = eps * eps * quarter * (w2 * w2) * (q1 * q1 - q * q).
+Proof. exact c_energy_error_quadratic. Qed.
+Print Assumptions C02_energy_error_quadratic.
+
+(* non-vacuity: the model evaluates; a diagonal transformation of the kind the harness builds
+   satisfies the round-trip hypotheses *)
+Example C02_nonvacuous :
   eval_maps (mk_lowrank [2#1] [1#1] [] [] [] [] false) [Q2Qc (3#1)] [Q2Qc (7#1)] [Q2Qc (5#1)]
   = [[[7; 1]]; [[3; 1]]; [[10; 1]]]%Z.
 Proof. vm_compute. reflexivity. Qed.
-Print Assumptions C02_model_runs.
+Print Assumptions C02_nonvacuous.
